@@ -303,6 +303,13 @@ type simClient struct {
 	// servers whose own key response was handed out, in order (C06: which
 	// servers a verification call really re-fetched)
 	answered []spec.ServerName
+	// C06 only: servers whose GET /key/v2/server fails (the client then asks
+	// them through POST /key/v2/query, and gets their genuine response), and a
+	// server in whose name such an answer carries one more, self-signed entry
+	// under a key of the answering server's making
+	directDown  map[spec.ServerName]bool
+	forgeVictim *world.Server
+	forgeKeyID  gmsl.KeyID
 }
 
 func (c *simClient) note(key string, rr ...*respRec) {
@@ -506,6 +513,12 @@ func (c *simClient) GetServerKeys(ctx context.Context, name spec.ServerName) (gm
 		return gmsl.ServerKeys{}, err
 	}
 	rec.grant(g)
+	if c.directDown[name] {
+		c.w.r.Fault("direct_key_fetch_fails_query_answers")
+		c.w.r.Logf("  %s[%s] -> HTTP 502", label, task)
+		c.note(task+"|"+label, &respRec{kind: "error"})
+		return gmsl.ServerKeys{}, errors.New("simnet: HTTP 502")
+	}
 	rr, err := c.respond(name)
 	if err != nil {
 		c.w.r.Logf("  %s[%s] -> %v", label, task, err)
@@ -681,6 +694,27 @@ func (c *simClient) LookupServerKeys(ctx context.Context, via spec.ServerName, r
 			out = append(out[:at], append([]gmsl.ServerKeys{rr.keys}, out[at:]...)...)
 			recs = append(recs[:at], append([]*respRec{rr}, recs[at:]...)...)
 			c.w.r.Fault("forged_response_for_another_server")
+		}
+	}
+	if v := c.forgeVictim; !isNotary && v != nil && len(out) > 0 && !names[v.Name] && v != n {
+		forged := *c.w.rogue.Current()
+		forged.ID = c.forgeKeyID
+		forged.From = time.Unix(0, 0)
+		fake := &world.Server{Name: v.Name, Keys: []*world.Key{&forged}, ValidFor: 1000 * time.Hour}
+		rr := &respRec{kind: "forged_other_server", server: v.Name, keys: fake.KeyResponse(time.Now())}
+		at := t.Intn(len(out) + 1)
+		out = append(out[:at], append([]gmsl.ServerKeys{rr.keys}, out[at:]...)...)
+		recs = append(recs[:at], append([]*respRec{rr}, recs[at:]...)...)
+		c.w.r.Fault("forged_response_for_another_server")
+	}
+	if !isNotary {
+		for _, rr := range recs {
+			if rr.good && rr.server == n.Name {
+				// the server's own genuine response reached the client this way
+				c.mu.Lock()
+				c.answered = append(c.answered, n.Name)
+				c.mu.Unlock()
+			}
 		}
 	}
 	c.w.r.Logf("  %s[%s] -> %d responses %s", label, task, len(out), kinds(recs))
